@@ -202,7 +202,41 @@ func (f *remoteWrapper) Config() proxyv1alpha1.RateLimitItemConfiguration {
 	return f.remoteConfig
 }
 
+// clampToGlobal bounds a quota answered by the limiter server by the schema's configured global limit, whatever
+// the server said: a negative max-in-flight quota would be converted to a huge uint32, a token bucket with qps 0 does
+// not limit at all, and the first answer used to be applied without any clamp.
+func (f *remoteWrapper) clampToGlobal(limitItem proxyv1alpha1.RateLimitItemConfiguration) proxyv1alpha1.RateLimitItemConfiguration {
+	local := f.flowControlCache.local.Config()
+	out := *limitItem.DeepCopy()
+	if out.MaxRequestsInflight != nil && local.GlobalMaxRequestsInflight != nil {
+		if out.MaxRequestsInflight.Max > local.GlobalMaxRequestsInflight.Max {
+			out.MaxRequestsInflight.Max = local.GlobalMaxRequestsInflight.Max
+		}
+		if out.MaxRequestsInflight.Max < 0 {
+			out.MaxRequestsInflight.Max = 0
+		}
+	}
+	if out.TokenBucket != nil && local.GlobalTokenBucket != nil {
+		if out.TokenBucket.QPS > local.GlobalTokenBucket.QPS {
+			out.TokenBucket.QPS = local.GlobalTokenBucket.QPS
+		}
+		if out.TokenBucket.QPS < 1 {
+			out.TokenBucket.QPS = 1
+		}
+		if out.TokenBucket.Burst > local.GlobalTokenBucket.Burst {
+			out.TokenBucket.Burst = local.GlobalTokenBucket.Burst
+		}
+		if out.TokenBucket.Burst < out.TokenBucket.QPS {
+			out.TokenBucket.Burst = out.TokenBucket.QPS
+		}
+	}
+	return out
+}
+
 func (f *remoteWrapper) Sync(limitItem proxyv1alpha1.RateLimitItemConfiguration) {
+	if limitItem.Strategy != proxyv1alpha1.GlobalCountLimit {
+		limitItem = f.clampToGlobal(limitItem)
+	}
 	if reflect.DeepEqual(limitItem, f.remoteConfig) {
 		return
 	}
